@@ -27,6 +27,7 @@ PROPERTIES = ["C09"]
 SPEC = os.path.join(vlib.SPEC, "gateway")
 VERDICT_INVS = ("AuthHolds", "VpcHolds", "ScopeHolds")
 CHUNK = 6000
+QUICK_SAMPLE = 20000      # cases of the thorough universe replayed in the quick tier (seeded sample)
 
 _RE_VIOL = re.compile(r"Error: Invariant (\w+) is violated by the initial state:\s*\n(?:/\\ )?l = (\d+)")
 _RE_UNIV = re.compile(r'<<\s*"(universe|auth|scope)",\s*\[(.*?)\]\s*>>', re.S)
@@ -170,7 +171,8 @@ def selftest(objs, workdir, flagged=()):
     flagged = set(flagged)
     objs = [o for n, o in enumerate(objs) if n not in flagged]      # start from lines TLC accepted as they are
     refused = next((o for o in objs if o["cert"]["chainLen"] == 1 and o["cert"]["cn"] == "X" and not o["tls"]
-                    and o["cert"]["holds"] and o["cert"]["der"] == "fresh"), None)
+                    and o["cert"]["holds"] and o["cert"]["der"] == "fresh"
+                    and all(o["reg"][k]["state"] != "valid" for k in ("X/s1", "X/s2"))), None)
     served = next((o for o in objs if o["served"] and o["tls"]), None)
     if refused is None or served is None:
         return {"ok": False, "why": "no suitable lines to corrupt"}
@@ -232,39 +234,43 @@ def run(pid, tier, seed, replay):
         return vlib.finish(pid, tier, seed, "model_checking", cov, t0, violations, assumptions)
 
     # ---- J1 (+ discrimination test) -----------------------------------------------------------------------
-    cfgs = ["MC_quick.cfg"] if tier == "quick" else ["MC_quick.cfg", "MC_thorough.cfg"]
+    # both universes are model-checked completely in every tier (seconds); the tiers differ in how much of the
+    # thorough universe is replayed on the real code: a seeded sample (quick) or all of it (thorough)
+    cfgs = ["MC_quick.cfg", "MC_thorough.cfg"]
     with concurrent.futures.ThreadPoolExecutor(max_workers=3) as ex:
         futs = {cfg: ex.submit(j1, cfg, 1500) for cfg in cfgs}
         fut_asfound = ex.submit(j1, "MC_asfound.cfg", 900)
         results = {cfg: f.result() for cfg, f in futs.items()}
         r_asfound = fut_asfound.result()
     states = transitions = 0
-    case_lines = []
-    universe = {}
+    exported = {}
     for cfg in cfgs:
         r = results[cfg]
         vlib.tlc_require_ok(r, "J1 %s" % cfg)
         u = parse_universe(r.out)
         la, ls = exported_cases(r)
-        lines = la + ls
-        distinct = len(set(lines))
-        if not u or u.get("auth", {}).get("n") != len(la) or u.get("scope", {}).get("n") != len(ls) or r.distinct != distinct:
+        lines = list(collections.OrderedDict((json.dumps(json.loads(l), sort_keys=True), None) for l in la + ls))
+        if not u or u.get("auth", {}).get("n") != len(la) or u.get("scope", {}).get("n") != len(ls) or r.distinct != len(lines):
             raise vlib.Inconclusive("J1 %s: exported %d+%d cases (%d distinct), TLC checked %d, universe record %s" % (
-                cfg, len(la), len(ls), distinct, r.distinct, u))
+                cfg, len(la), len(ls), len(lines), r.distinct, u))
         vlib.log("[C09] J1 %s: %d cases model-checked clean in %.1fs %s" % (cfg, r.distinct, r.wall_s, u))
         states += r.distinct
         transitions += r.generated - r.distinct
-        universe[cfg] = u
         cov["configs"].append({"cfg": cfg, "states": r.distinct, "generated": r.generated, "wall_s": round(r.wall_s, 1), "universe": u})
-        case_lines += lines
+        exported[cfg] = lines
     if r_asfound.violated != "AuthSound":
         raise vlib.Inconclusive("discrimination test: the as-found procedure (MC_asfound.cfg) must violate AuthSound in J1, "
                                 "got %r" % r_asfound)
     cov["asfound_model_violates"] = r_asfound.violated
-    # cases shared by both universes are replayed once
-    case_lines = list(collections.OrderedDict((json.dumps(json.loads(l), sort_keys=True), None) for l in case_lines))
     rnd = random.Random(seed)
-    rnd.shuffle(case_lines)              # the seed also drives which worker/connection order a case gets
+    quick_set = set(exported["MC_quick.cfg"])
+    rest = [l for l in exported["MC_thorough.cfg"] if l not in quick_set]     # shared cases are replayed once
+    if tier == "quick":
+        rest = rnd.sample(rest, min(len(rest), QUICK_SAMPLE))
+    case_lines = exported["MC_quick.cfg"] + rest
+    rnd.shuffle(case_lines)              # the seed also drives which gateway/connection order a case gets
+    cov["replayed"] = {"MC_quick.cfg": len(quick_set), "MC_thorough.cfg": len(rest),
+                       "of_thorough_universe": len(exported["MC_thorough.cfg"])}
 
     # ---- J2 + J3 ------------------------------------------------------------------------------------------
     trace_lines, objs, viol, judged = execute(pid, tier, seed, case_lines, workdir, vh, 3000)
@@ -297,8 +303,9 @@ def run(pid, tier, seed, replay):
         accepted_connections=len(accepted),
         served_requests=sum(1 for o in objs if o["served"]),
         refused_handshakes=sum(1 for o in objs if not o["tls"]),
-        exhaustive=True,
-        exhaustive_note="every case of the bounded universe(s) was executed on the real code",
+        exhaustive=(tier == "thorough"),
+        exhaustive_note="J1 is exhaustive over both bounded universes in every tier; the replay on the real code covers all of "
+                        "the quick universe and %s of the thorough one" % ("all" if tier == "thorough" else "a seeded sample"),
         drift_steps=len(drift),
         binding_selftest=st,
         samples=[{k: o[k] for k in ("cert", "reg", "path", "vpc", "tls", "status", "served", "url", "tlsErr")}
